@@ -510,6 +510,13 @@ func atomicIDs(c *Ctx) {
 					adds = append(adds, call)
 				}
 			}
+			// typed atomics: x.nextId.Add(1) on a sync/atomic.Uint32/Uint64/Int32/Int64 field
+			if se, isS := p.Parent(a.sel).(*ast.SelectorExpr); isS && se.X == ast.Expr(a.sel) && se.Sel.Name == "Add" {
+				if call, isC := p.Parent(se).(*ast.CallExpr); isC && call.Fun == ast.Expr(se) && strings.HasPrefix(p.CalleeName(f, call), "sync/atomic.") {
+					ok = true
+					adds = append(adds, call)
+				}
+			}
 			fn := p.FieldName(a.fv)
 			if ok {
 				c.R.Hold("R-GUARD/atomic", p.Pos(a.sel), f.Name, fn+" via sync/atomic", "atomic add, no other access", true)
